@@ -640,7 +640,8 @@ class Log(registering.StoriedRegistrar):
                     #self.formats[tag][field] = fmt
 
 
-        if self.rule in (CHANGE, ):  # build last copies for if changed
+        if self.rule in (CHANGE, ) and self.stamp is None:  # build last copies for if changed
+            # only when never logged so a restart keeps the values last logged
             self.lasts.clear()
             for tag, fields in self.fields.items():  # list of fields by tag
                 loggee = self.loggees[tag]
